@@ -143,6 +143,26 @@ NEEDS = {
     "C15G": "unit durations of the order of the 1e-6 segment precision",
     "C16G": ">= 4 ground-truth annotators (the exclusion zone of the third or a later pivot is skipped)",
     "C19G": "false negatives with 0 < magnitude < 1 on a small reference (an annotator loses every unit)",
+    # ---- fifth round (H)
+    "C01H": "a continuum mixing labelled and unlabelled units with a table-less dissimilarity (the unlabelled index is only reserved when there is no category at all)",
+    "C02H": "exactly 3 annotators and an optimal 3-unit unitary alignment holding one couple costing between 4.5 and 5 delta_empty, bridged by a long unit of the third annotator",
+    "C03H": ">= 3 annotators, a unitary alignment with two or more empty slots, recomputed through compute_disorder (empty/empty couples double-counted)",
+    "C04H": "ordinal positions that do not ascend from the first to the last supplied label / numerical labels whose first and last (alphabetical) entries are not min and max",
+    "C05H": "soft (or fast) mode, a precision level, and a first batch whose variation demands a second batch: the second batch is aligned in exact mode",
+    "C06H": "ground_truth_annotators given as an unordered set, and processes with different PYTHONHASHSEED",
+    "C07H": "a non-integer cut n*C(n,2)*delta_empty (e.g. 3 annotators, delta_empty 0.5) and a candidate costing between the floored and the true cut",
+    "C08H": "GLPK fallback on the best-alignment path and a unit with two close partners in another annotator (cover instead of partition)",
+    "C09H": "unlabelled units mixed with labelled ones, table-less categorical component, and a renaming that changes which label sorts last",
+    "C10H": "a window whose best alignment has no unitary alignment ending before the limit (fallback) and a non-zero disorder of the fallback unitary alignment",
+    "C11H": "GLPK fallback on the soft path and an input where re-using a unit is strictly cheaper than any partition",
+    "C12H": "one Alignment object asked twice for the same category under two different combined dissimilarities (result memoised per category only)",
+    "C13H": "an explicit reset_bounds() on a continuum whose latest-ending unit is not the last unit (in start order) of its annotator",
+    "C15H": "a duration law with microsecond-scale durations (a drawn duration below the 1e-6 segment precision is clamped instead of redrawn)",
+    "C16H": "int pivots and a continuum whose lower bound or half average unit length is fractional (lower end of an allowed range floored instead of ceiled)",
+    "C17H": "two units of one annotator with the same label whose bounds agree to 6 significant digits (large timestamps / near-coincident bounds)",
+    "C18H": "a label or annotator containing a carriage return (CSV read without newline='')",
+    "C19H": "split on units so short that a cut lands within the 1e-6 segment precision of a bound (the popped unit is dropped instead of being put back)",
+    "C20H": "one run with >= 2 files, -d numerical, a later file whose categories are a subset of an earlier file's with a smaller numeric range",
 }
 EXTRA_CHECKS = {"C09B": ["C04", "C02"], "C04B": ["C14"], "C10A": ["C01"], "C14B": ["C13"], "C01B": ["C08"], "C08A": ["C01"],
                 "C04D": ["C02", "C07"], "C07C": ["C02"], "C09C": ["C07"], "C09D": ["C02"], "C14D": ["C13"], "C13C": ["C14"], "C18C": ["C13"], "C09E": ["C07", "C02"], "C03G": ["C04"], "C02G": ["C07"]}
